@@ -49,6 +49,17 @@ def c02_a(ctx: Ctx):
         if not bad and not unk:
             out.append(ctx.ok(R, root, root.node, f"call closure of {rootq.split(':')[-1]} ({len(cl)} functions, {len(eff)} effects) contains no mutating primitive",
                               construct=rootq + "|closure"))
+        # opening by state point has no persistent side effect through the state point cache either:
+        # an entry for a job that was never initialised would be written out by update_cache() and make open_job(id=...) succeed later
+        for f in (root,):
+            stores = [n for n in body_nodes(f) if (isinstance(n, ast.Assign) and any(isinstance(t, ast.Subscript) and canon(t.value).endswith("._sp_cache") for t in n.targets))
+                      or (isinstance(n, ast.Call) and isinstance(n.func, ast.Attribute) and n.func.attr in ("_register", "setdefault") and ("_sp_cache" in canon(n.func.value) or n.func.attr == "_register"))]
+            k = rootq + "|no-cache-registration"
+            if stores:
+                out.append(ctx.viol(R, f, stores[0], f"{rootq.split(':')[-1]} records the opened state point in the project's state point cache ({stmt_key(stores[0], 40)}) although nothing was "
+                                    "initialised: the id of a job that does not exist can reach the persistent cache and open_job(id=...) then returns a handle instead of raising KeyError", construct=k))
+            else:
+                out.append(ctx.ok(R, f, f.node, "no state point is registered in the cache before the job is initialised", construct=k, nontrivial=False))
     return out
 
 
